@@ -1,5 +1,5 @@
 (* C05 — A crash at any step leaves a log that Recover reopens consistently (the log-file level). *)
-From KV Require Import Base Model Codec CodecProofs RecoverProofs.
+From KV Require Import Base Model Codec CodecProofs RecoverProofs LogInv OpenProofs CrashDir CrashDirProofs.
 
 (* a crash part-way through the append of a record (any proper prefix of the record reached the file),
    after any number of complete records, whatever the index file holds: Recover cuts exactly the torn record,
@@ -65,3 +65,53 @@ Theorem C05_F14_short_file_refused :
   forall crc H p base (b : bytes) idx, 0 < zlen b < 8 -> recover_bytes crc H p base b idx = Err ELogCorrupted.
 Proof. exact recover_short_file_refused. Qed.
 Print Assumptions C05_F14_short_file_refused.
+
+(* ---------- the multi-file swaps of delete-by-rewrite (CrashDir.v; the step programs are compared on every run with the
+   file-system events the implementation performs) *)
+
+(* the in-place swap (Segment.Override: remove index, rename log, rename index), for a segment anywhere in the
+   directory: a process that dies after ANY prefix of it leaves a well-formed directory whose content is the one
+   before or the one after the Delete - a Delete in flight is either fully applied or not at all - and every index
+   file is absent or the derived one *)
+Theorem C05_override_crash_safe :
+  forall (H : bytes -> Z) pre post s keep p,
+  DirInv (pre ++ s :: post) -> (forall m, In m keep -> In m (srecs s)) -> SegProofs.recs_sorted keep ->
+  match keep with [] => False | m :: _ => moff m = sbase s end ->
+  forall k,
+  crash_ok (pre ++ s :: post)
+           (pre ++ mkSeg (sbase s) (sver s) keep (Some (sver s, derive H p (sver s) keep)) :: post)
+           (fs_run (mkDir (pre ++ s :: post) (mkTmp (Some keep) (Some (sver s, derive H p (sver s) keep))))
+                   (firstn k (prog_override (sbase s)))).
+Proof. exact override_crash_safe. Qed.
+Print Assumptions C05_override_crash_safe.
+
+(* the removal of an emptied segment (RewriteSegment.Remove, then Segment.Remove: index, log) *)
+Theorem C05_drop_crash_safe :
+  forall pre post s tmp, DirInv (pre ++ s :: post) -> post <> [] ->
+  forall k, crash_ok (pre ++ s :: post) (pre ++ post) (fs_run (mkDir (pre ++ s :: post) tmp) (firstn k (prog_drop (sbase s)))).
+Proof. exact drop_crash_safe. Qed.
+Print Assumptions C05_drop_crash_safe.
+
+(* what Open (Recover or any other mode) shows of such a directory: the log before or after the Delete, with Inv *)
+Theorem C05_reopen_after_crash :
+  forall (H : bytes -> Z) before after d c0 st',
+  crash_ok before after d -> dsegs d <> [] ->
+  log_open H (mkState (dsegs d) 0 None false) c0 = Ok st' ->
+  Inv st' /\ (abs st' = abs_dir before \/ abs st' = abs_dir after).
+Proof. exact reopen_after_crash. Qed.
+Print Assumptions C05_reopen_after_crash.
+
+(* known finding F6 on the model: the swap of a REBASING delete (Rename to the new base, then Remove of the old files)
+   is not atomic in this sense - after its first step the directory holds the old segment AND the rewritten one, every
+   survivor twice: neither the log before nor the log after *)
+Theorem C05_F6_rebase_overlap :
+  forall pre post s keep ix b',
+  DirInv (pre ++ s :: post) -> sbase s < b' -> (forall q, In q post -> b' < sbase q) ->
+  keep <> [] -> (length keep < length (srecs s))%nat ->
+  let d1 := fs_run (mkDir (pre ++ s :: post) (mkTmp (Some keep) (Some ix))) (firstn 1 (prog_rebase (sbase s) b')) in
+  dsegs d1 = pre ++ s :: mkSeg b' V2 keep None :: post /\
+  all_recs (dsegs d1) = all_recs pre ++ srecs s ++ keep ++ all_recs post /\
+  length (all_recs (dsegs d1)) <> length (all_recs (pre ++ s :: post)) /\
+  length (all_recs (dsegs d1)) <> length (all_recs (pre ++ mkSeg b' V2 keep (Some ix) :: post)).
+Proof. exact rebase_crash_overlap. Qed.
+Print Assumptions C05_F6_rebase_overlap.
